@@ -58,7 +58,7 @@ def run(prop: str, tier: str, seed: int) -> int:
     for g in groups:
         for eng in ("sync", "async"):
             units.append(("core", {"specs": g, "engine": eng, "props": [prop], "seed": seed, "gvals": ("T", "F"), "mc": True,
-                                   "tlc_workers": 2, "walks": (0, 0), "max_states": 120 if q else 4000,
+                                   "tlc_workers": 2, "walks": (0, 0), "max_states": 120 if q else 600,
                                    "with_lifecycle": True}))
     sspecs = gen.family_X(seed, 7 if q else 20) + gen.family_V(seed + 1, 6 if q else 20)
     for sp in sspecs:
